@@ -135,6 +135,8 @@ package router
 //@   inline
 //@   nosweep
 
+//@ pred metaEventIds(e *wamp.Event, ms *subscription, pubID wamp.ID) = e != nil && e.Subscription == ms.id && e.Publication == pubID
+
 //@ pred metaEventFor(e *wamp.Event, ms *subscription, pubID wamp.ID, sendTopic bool, topic wamp.URI) = e != nil && e.Subscription == ms.id && e.Publication == pubID && e.Details != nil && (sendTopic ==> "topic" in e.Details && e.Details["topic"] == box(topic)) && (!sendTopic ==> !("topic" in e.Details))
 
 //@ func (b *broker) syncPubSubMeta
@@ -159,13 +161,13 @@ package router
 //@   requires brokerInv(b) && sub != nil
 //@   modifies ghost sendcount
 //@   callsite trySend : [meta-event-to-a-subscriber-other-than-the-causing-session] arg1 in metaSub.subscribers && arg1.ID != subSessID
-//@   callsite trySend : [meta-event-for-that-subscription] is(arg2, *wamp.Event) && metaEventFor(arg2.(*wamp.Event), metaSub, pubID, sendTopic, wamp.MetaEventSubOnCreate)
+//@   callsite trySend : [meta-event-for-that-subscription] is(arg2, *wamp.Event) && metaEventIds(arg2.(*wamp.Event), metaSub, pubID)
 
 //@ closure (b *broker) syncPubSubCreateMeta 1
 //@   inline
 //@   nosweep
 //@   loop range metaSub.subscribers
-//@     invariant [shared-event-is-for-this-subscription] event == nil || metaEventFor(event, metaSub, pubID, sendTopic, wamp.MetaEventSubOnCreate)
+//@     invariant [shared-event-is-for-this-subscription] event == nil || metaEventIds(event, metaSub, pubID)
 
 // ---------------------------------------------------------------------------
 // Broker: session index and ownership
@@ -1265,3 +1267,10 @@ package router
 //@   props C18 C04
 //@   requires dealerInv(d)
 //@   sendsite answer wamp.ID : [id-of-the-best-match-or-zero] m == 0 || m in d.registrations
+
+//@ closure (b *broker) subEventHistory 1
+//@   on broker
+//@   props C20 C04
+//@   requires brokerInv(b) && brokerHist(b)
+//@   loop i < j
+//@     invariant [reverse-bounds] 0 <= i && j < len(filteredEvents)
